@@ -35,6 +35,10 @@ CHECKS = {
                   "whitespace, sign, underscore, exponent letters, non-ASCII digits; fixed-layout date/time values with symbolic characters "
                   "substituted / inserted / deleted at every position; all digit strings per calendar part) against reference lexical "
                   "predicates; enumerated fields of both dictionaries against their enumerations."),
+    "C17": ("2 (C17)", "The real order object driven against an exchange model written from the FIX 4.4 order state change matrices, with an "
+                  "in-flight queue in each direction: every interleaving of client requests, request / report deliveries and exchange actions "
+                  "up to a depth bound (each move a solver-chosen index), plus step cells for ClOrdID chaining (symbolic roots, regex) and "
+                  "request-after-reject; oracle = convergence, fresh ClOrdIDs, enum-member status, one outstanding request."),
     "C08": ("2 (C08)", "Operation sequences on the real Journaler (FakeSQLite) with the crash slot as a solver variable over every point "
                   "before/after every SQL statement and commit, plus normal close; after the crash a fresh Journaler must show a state "
                   "at an operation boundary. Counterexamples and sampled witnesses are re-run on the real sqlite3 with os._exit in a child."),
